@@ -214,6 +214,46 @@ pub fn replay(case: &Value) -> Vec<Obs> {
         None => obs.push(Obs::ok("C10", "ids-in-use-below-counter")),
         Some(d) => obs.push(Obs::bad("C10", "id-in-use-not-fresh", format!("{} :: {}", what, d))),
     }
+    // C10: clauses fetched one after the other in the middle of this process's search state (get_rule is what the
+    // clause loop calls): within each renamed clause same name <=> same id, every id is fresh (above the id counter
+    // read just before the fetch), and everything else about the clause is unchanged
+    {
+        let prog = case["prog"].as_array().unwrap();
+        let mut order: Vec<usize> = (0..prog.len()).collect();
+        order.extend((0..prog.len()).rev());
+        let mut idx_of: std::collections::HashMap<String, usize> = std::collections::HashMap::new();
+        let mut index_in_pred: Vec<(String, usize)> = vec![];
+        for cl in prog {
+            let h = tm_from_json(&cl["head"]);
+            let key = match &h { Tm::Cx(f, a) => format!("{}/{}", f, a.len()), _ => String::new() };
+            let n = idx_of.entry(key.clone()).or_insert(0);
+            index_in_pred.push((key, *n));
+            *n += 1;
+        }
+        let mut bad: Option<String> = None;
+        for &ci in &order {
+            let (key, k) = &index_in_pred[ci];
+            let before = get_var_id();
+            let r = catch_unwind(AssertUnwindSafe(|| get_rule(&kb, key, *k)));
+            let r = match r { Ok(r) => r, Err(_) => { bad = Some(format!("get_rule({}, {}) panicked", key, k)); break; } };
+            let after = get_var_id();
+            let head_t = project(&r.head);
+            let body_j = crate::syntax::project_goal(&r.body);
+            let mut pairs: Vec<(String, usize)> = vec![];
+            collect_pairs(&head_t, &mut pairs);
+            collect_goal_pairs(&body_j, &mut pairs);
+            let consistent = pairs.iter().all(|(n1, i1)| pairs.iter().all(|(n2, i2)| (n1 == n2) == (i1 == i2)));
+            let fresh = pairs.iter().all(|(_, id)| *id > before && *id <= after);
+            let want_head = canon(&[number_by_name(&tm_from_json(&prog[ci]["head"]))]);
+            let shape = canon(&[head_t.clone()]) == want_head && strip_ids(&body_j) == strip_ids(&crate::syntax::norm_goal(&prog[ci]["body"]));
+            if !(consistent && fresh && shape) {
+                bad = Some(format!("{} :: clause {} of {} fetched with the id counter at {}: {} :- {} (same name <=> same id: {}, ids fresh: {}, rest unchanged: {})",
+                    what, k, key, before, show(&head_t), body_j, consistent, fresh, shape));
+                break;
+            }
+        }
+        match bad { None => obs.push(Obs::ok("C10", "get_rule-sequence")), Some(d) => obs.push(Obs::bad("C10", "get_rule-sequence", d)) }
+    }
     if slice == "alias" {
         if run.cycle { obs.push(Obs::bad("C08", "cycle", detail.clone())); } else { obs.push(Obs::ok("C08", "acyclic")); }
     }
@@ -254,6 +294,38 @@ pub fn replay(case: &Value) -> Vec<Obs> {
         match bad { None => obs.push(Obs::ok("C11", "alpha-variants")), Some(d) => obs.push(Obs::bad("C11", "alpha-variants", d)) }
     }
     obs
+}
+
+fn collect_pairs(t: &Tm, acc: &mut Vec<(String, usize)>) {
+    match t {
+        Tm::Var(id, name) => acc.push((name.clone(), *id)),
+        Tm::Cx(_, a) | Tm::Fn(_, a) => a.iter().for_each(|x| collect_pairs(x, acc)),
+        Tm::List(a, tl) => { a.iter().for_each(|x| collect_pairs(x, acc)); if let Some(x) = tl { collect_pairs(x, acc) } }
+        _ => {}
+    }
+}
+fn collect_goal_pairs(g: &Value, acc: &mut Vec<(String, usize)>) {
+    match g["g"].as_str().unwrap_or("") {
+        "call" => collect_pairs(&tm_from_json(&g["t"]), acc),
+        "bip" => g["a"].as_array().map(|a| a.iter().for_each(|t| collect_pairs(&tm_from_json(t), acc))).unwrap_or(()),
+        "nil" => {}
+        _ => g["gs"].as_array().map(|a| a.iter().for_each(|x| collect_goal_pairs(x, acc))).unwrap_or(()),
+    }
+}
+/// a goal with every variable id set to 0 (the shape of the goal: everything but the ids)
+fn strip_ids(g: &Value) -> Value {
+    fn st(t: &Value) -> Value {
+        match t {
+            Value::Object(m) => {
+                let mut o = serde_json::Map::new();
+                for (k, v) in m { if k == "n" && m.get("k").and_then(|x| x.as_str()) == Some("var") { o.insert(k.clone(), Value::from(0)); } else { o.insert(k.clone(), st(v)); } }
+                Value::Object(o)
+            }
+            Value::Array(a) => Value::Array(a.iter().map(st).collect()),
+            o => o.clone(),
+        }
+    }
+    st(g)
 }
 
 fn collect_ids(t: &Tm, acc: &mut Vec<usize>) {
